@@ -295,8 +295,11 @@ Definition action_pre (r:rnode) (i:Z) (a:gf_action) : rnode :=
   | GaCmdDesc _ _ s1 s2 true => set_conf_strings r s1 s2
   | _ => r
   end.
+(* (the on-demand heartbeat is sent only by an active bus device: SendHeartbeat(iDev) after the repair c50f5df; in the handlers the case is
+   reached on active nodes only, since handle_system ignores PGN 126208 in the other modes) *)
 Definition gf_exec_sends_stmt : Prop :=
   forall r i a, 0 <= i < dev_count (rn r) ->
+    (forall iv off, a = GaHeartbeat iv off -> is_active_node (rn r) = true) ->
     snd (gf_exec r i a) = snd (send_seq (action_pre r i a) i (action_msgs (action_pre r i a) i a)) /\
     (a = GaClaim -> (Z.to_nat i < length (rx_dev r))%nat -> x_pend_claim (get_devx (fst (gf_exec r i a)) i) = sched_from_now (w64 r) (now r) 2).
 
